@@ -3,6 +3,7 @@
 from __future__ import annotations
 
 from contracts import common, trusted
+import contracts.C10_dispatch  # noqa: F401  (Step.delete_hash stand-in)
 from contracts.C13_hash import FileHashRec, HashFailedError, is_unknown_rec
 from contracts.common import FileState, Workflow, workflow_spec
 from contracts.trusted import DbStub, PathStr, Reporter, SymPath
@@ -563,12 +564,6 @@ class _TrellisStub:
     pass
 
 
-@contract("stepup/core/step.py::Step.delete_hash", props=[], verify=False,
-          note="removes the stored step hash (database write only)")
-class delete_hash_assumed:
-    modifies = []
-
-
 def _trellis_obj(args):
     wf = workflow_spec(queries=[
         (DD_SELECT, ty.TupleOf(ty.Int, ty.Str, ty.Str, ty.Opt(ty.Int)), _dd_rows_facts),
@@ -604,13 +599,6 @@ class delete_detached:
 buildermod = extract.import_module("stepup/core/builder.py")
 Builder = buildermod.Builder
 ReturnCode = common.enums.ReturnCode
-
-
-@contract("stepup/core/finalize.py::report_unbuilt", props=[], verify=False,
-          note="returns the ReturnCode flags of the build (verified under C19)")
-class report_unbuilt_assumed:
-    result = ty.FlagOf(ReturnCode)
-    modifies = []
 
 
 @contract("stepup/core/workflow.py::Workflow.delete_detached", props=[], verify=False,
